@@ -16,6 +16,7 @@ Record robs := mkRobs { o_disp : bool; o_status : Z; o_snap : bytes; f_disp : bo
 Inductive c11case :=
 | CFields (names : list string)                              (* flattened field paths of RequestCtx by reflection, sorted *)
 | CReset (k : rkind) (flags : list (string * bool))          (* all fields dirtied, the real reset called: field, is zero afterwards *)
+| CWritten (names : list string)                            (* observable fields that are non-zero when a handler runs on a new server *)
 | CHist (c : scfg) (conns : list (list lreq)) (obs : list (list robs)) (log : list (list lev)).
 
 (* ---- sorting the model's field list the way the harness does (insertion sort on strings) ---- *)
@@ -75,6 +76,9 @@ Definition corr_ok (x : c11case) : bool :=
   | CFields names => list_eqb String.eqb (sort_strings all_fields) names
   | CReset k flags =>
       list_eqb flag_eqb (map (fun f => (f, zero_after k f)) (sort_strings (rk_fields k))) flags
+  | CWritten names =>
+      (* the model's write set of parsing + loop initialisation covers what the real code writes *)
+      forallb (fun f => mem f loop_fields || mem f assigned_fields || mem f appended_fields) names
   | CHist c conns obs log => conns_match c conns obs log
   end.
 
@@ -96,7 +100,11 @@ Fixpoint deadlines_ok (c : scfg) (disp : list lreq) (lg : list lev) (rd wr : Z) 
       | [] => false
       | q :: dr =>
           (rd =? spec_rdl_body c q)
-          && (match r with LW d :: _ => d =? spec_wt c q | _ => wr =? spec_wt c q end)
+          (* the response is written under the request's write deadline: when one is prescribed, or one is still
+             armed, the server must set / clear it right after the handler returns *)
+          && (if (spec_wt c q >? 0) || (wr >? 0)
+              then match r with LW d :: _ => d =? spec_wt c q | _ => false end
+              else true)
           && deadlines_ok c dr r rd wr
       end
   end.
@@ -117,6 +125,7 @@ Fixpoint hist_ok (c : scfg) (conns : list (list lreq)) (obs : list (list robs)) 
 Definition prop_ok (x : c11case) : bool :=
   match x with
   | CFields _ => true
+  | CWritten _ => true
   | CReset k flags =>
       (* the resets a ctx goes through between two requests leave every observable field zero *)
       match k with
